@@ -166,6 +166,12 @@ def cli_lane(pid, tier, seed, agg, meta, profiles=("debug", "release")):
         pairs.append(("{\"var\":\"\"}", deep(n))); classes.append("over-limit-data")
         pairs.append((deep(n // 2 + 1, "{\"!\":[", "]}"), "null")); classes.append("over-limit-rule")
     pairs.append(("{\"var\":\"\"}", deep(200000))); classes.append("over-limit-data-stdin-only")
+    # large multi-byte data (beyond pipe / read-block sizes), every byte alignment
+    for size in (70_000, 140_000, 300_000):
+        for k in range(4):
+            body = "a" * k + "\U0001F600\u65e5\u00e9" * (size // 9)
+            pairs.append(("{\"substr\":[{\"var\":\"k\"},-5]}", json.dumps({"k": body, "n": [1, 2]}, ensure_ascii=False))); classes.append("big-multibyte-data")
+            pairs.append(("{\"var\":\"n.1\"}", json.dumps({"k": body, "n": [1, 2]}, ensure_ascii=False) + "\n")); classes.append("big-multibyte-data")
     pairs.append(("{\"cat\":[{\"var\":\"\"}]}", deep(128))); classes.append("at-limit")
     pairs.append(("{\"cat\":[{\"var\":\"\"}]}", deep(127))); classes.append("at-limit")
     oracle = libcall(jlmon, pairs)
@@ -248,6 +254,42 @@ def cli_lane(pid, tier, seed, agg, meta, profiles=("debug", "release")):
                     rep["violations"].append({"monitor": "c18.chain", "sig": "chain", "rule": r2, "data": {"first_rule": r1, "first_data": d1},
                                               "expected": {"stdout_lines": want}, "got": {"exit1": rc1, "exit2": rc2, "stdout2": out2.decode("utf8", "replace")[:500], "stderr2": err2.decode("utf8", "replace")[:300]},
                                               "note": "piping the output into a second invocation differs from evaluating on the parsed output", "lane": "cli-" + profile, "direct": False, "count": 1})
+        # data typed on a terminal: stdin is a tty (pty), not a pipe or a file
+        if pid == "C18":
+            import pty
+            m = mons.setdefault("c18.tty-stdin", {"observed": 0, "judged": 0, "unjudged": 0, "violations": 0})
+            tty_pairs = [(r, d) for (r, d), c in zip(pairs, classes) if c in ("fixed", "falsy-data", "invalid-data") and len(d) < 1500 and "\x00" not in r + d
+                         and not any(ord(ch) < 32 and ch not in "\n\t" for ch in d) and "\x7f" not in d][: (40 if tier == "quick" else 200)]
+            tty_oracle = libcall(jlmon, [(r, d + "\n") for r, d in tty_pairs])
+            for (r, d), o in zip(tty_pairs, tty_oracle):
+                for form in ("stdin", "dash"):
+                    argv = [binary] + (["--"] if r.startswith("-") else []) + [r] + (["-"] if form == "dash" else [])
+                    master, slave = pty.openpty()
+                    try:
+                        p = subprocess.Popen(argv, stdin=slave, stdout=subprocess.PIPE, stderr=subprocess.PIPE, close_fds=True)
+                        os.close(slave)
+                        # canonical mode: every line ends with newline; Ctrl-D at the start of a line is end of input
+                        os.write(master, (d + "\n").encode("utf8") + b"\x04")
+                        try:
+                            out, err = p.communicate(timeout=30)
+                            rc = p.returncode
+                        except subprocess.TimeoutExpired:
+                            p.kill()
+                            out, err = p.communicate()
+                            rc = None
+                    finally:
+                        os.close(master)
+                    rep["evaluations"] += 1
+                    m["observed"] += 1
+                    m["judged"] += 1
+                    vio, cells = judge_cli(pid, r, d + "\n", form, profile, o, rc, out, err)
+                    hashes.add(hkey("tty", r, d, form))
+                    rep["cells"]["tty-stdin"] = rep["cells"].get("tty-stdin", 0) + 1
+                    for v in vio:
+                        v["monitor"] = "c18.tty-stdin" if v["monitor"] != "c01.cli" else v["monitor"]
+                        v["sig"] = "tty:" + v["sig"]
+                        mons.setdefault(v["monitor"], {"observed": 0, "judged": 0, "unjudged": 0, "violations": 0})["violations"] += 1
+                        rep["violations"].append(v)
         rep["nontrivial_hashes"] = sorted(hashes)
         O.merge_report(agg, rep, "cli-" + profile)
         O.lane_record(agg, "cli-" + profile, "real jsonlogic binary (%s profile) vs library-as-a-process" % profile, [rep], [], time.time() - t0)
